@@ -109,3 +109,54 @@ def dangling_member_constraints(m):
         if refs - defs:
             return True
     return False
+
+
+def run_lines_watchdog(exe, lines, per_line=10.0, env=None):
+    """feed command lines to a line-protocol driver with a watchdog: if no complete answer line arrives
+    within per_line seconds the driver is killed (a command that never returns — e.g. BIT_STRING_encode_oer's
+    padding loop, which never decrements its counter and allocates without bound — must not take the
+    machine down).  Returns (rc | "TIMEOUT", output lines, stderr tail)."""
+    import subprocess, select, tempfile, threading, os as _os
+    data = ("\n".join(lines) + "\n").encode()
+    errf = tempfile.TemporaryFile()
+    p = subprocess.Popen([exe], stdin=subprocess.PIPE, stdout=subprocess.PIPE, stderr=errf, env=env)
+
+    def feed():
+        try:
+            p.stdin.write(data)
+            p.stdin.close()
+        except (BrokenPipeError, OSError):
+            pass
+    t = threading.Thread(target=feed, daemon=True)
+    t.start()
+    buf = b""
+    fd = p.stdout.fileno()
+    timed_out = False
+    nlines = 0
+    while True:
+        r, _, _ = select.select([fd], [], [], per_line)
+        if not r:
+            timed_out = True
+            p.kill()
+            break
+        chunk = _os.read(fd, 1 << 16)
+        if not chunk:
+            break
+        buf += chunk
+        n = buf.count(b"\n")
+        if n == nlines:
+            # partial line only: keep the same deadline semantics (a new select gives another per_line;
+            # bounded by the size of one answer)
+            pass
+        nlines = n
+    p.wait()
+    t.join(timeout=2)
+    errf.seek(0)
+    err = errf.read().decode(errors="replace")[-4000:]
+    errf.close()
+    out = buf.decode(errors="replace").split("\n")
+    if out and out[-1] == "":
+        out.pop()
+    elif out and timed_out:
+        out.pop()            # an unfinished answer line
+    return ("TIMEOUT" if timed_out else p.returncode), out, err
